@@ -25,6 +25,26 @@ def parse(out):
         elif l == "ENDIN": cur["done"] = True
     return res
 
+def z_const_stream(n, mb=16):
+    """the .Z stream (block mode, no CLEAR) of n zero bytes"""
+    maxmax = 1 << mb
+    codes = []; left = n; dlen = 1
+    while left > 0:
+        m = min(dlen, left); codes.append(0 if m == 1 else 257 + (m - 2)); left -= m
+        if left > 0 and m == dlen and 257 + (dlen - 1) < maxmax: dlen += 1
+    nb = 9; maxcode = 511; free = 257; first = True; used = 0; acc = 0; nacc = 0; out = bytearray([31, 157, 0x80 | mb])
+    for c in codes:
+        if free > maxcode:
+            g = 8 * nb; nacc += (g - used % g) % g
+            while nacc >= 8: out.append(acc & 255); acc >>= 8; nacc -= 8
+            nb += 1; maxcode = maxmax if nb == mb else (1 << nb) - 1; used = 0
+        acc |= c << nacc; nacc += nb; used += nb
+        while nacc >= 8: out.append(acc & 255); acc >>= 8; nacc -= 8
+        if first: first = False
+        elif free < maxmax: free += 1
+    if nacc: out.append(acc & 255)
+    return bytes(out)
+
 def main():
     tier = sys.argv[1] if len(sys.argv) > 1 else "quick"
     replay = sys.argv[sys.argv.index("--replay") + 1] if "--replay" in sys.argv else None
@@ -86,6 +106,10 @@ def main():
             bc = bz2.BZ2Compressor(9); chunk = bytes(1 << 20); parts = []
             for _ in range(640): parts.append(bc.compress(chunk))
             parts.append(bc.flush()); bombs["bomb-over-ceiling.bz2"] = b"".join(parts)
+            # compress (.Z): LZW codes of a constant payload reach strings of 64 KiB, about 32000:1 (a writer for exactly this input; its
+            # output format is the one Model/Lzw.v proves and gzip -d accepts)
+            bombs["bomb.Z"] = z_const_stream(n)
+            bombs["bomb-over-ceiling.Z"] = z_const_stream(640 << 20)
             for name, blob in bombs.items():
                 p = os.path.join(tmpd, name); open(p, "wb").write(blob); jobs.append((p, "L", "bomb-" + name)); jobs.append((p, "T", "bomb-" + name))
         r = V.run([drv], inp="".join("%s\t%s\n" % (p, m) for p, m, _ in jobs), env=env, timeout=6000)
